@@ -364,7 +364,7 @@ namespace Givaro {
 		{
 			// Defensive init
 			const double tmp(fmod(d,this->_fMODOUT));
-			return DirectFather_t::init(pad, (tmp>0.0)?tmp:(tmp+_fMODOUT) );
+			return DirectFather_t::init(pad, (tmp>=0.0)?tmp:(tmp+_fMODOUT) );
 		}
 		virtual Rep& init(Rep& pad, const float d) const
 		{
